@@ -574,14 +574,22 @@ namespace cds { namespace intrusive {
         {
             assert( iter != end());
 
-            marked_data_ptr val( iter.data());
-            if ( iter.m_pNode->data.compare_exchange_strong( val, marked_data_ptr(), memory_model::memory_order_acquire, atomics::memory_order_relaxed )) {
-                --m_ItemCounter;
-                retire_data( val.ptr());
-                m_Stat.onEraseSuccess();
-                return true;
+            back_off bkoff;
+            for (;;) {
+                marked_data_ptr val( iter.data());
+                if ( iter.m_pNode->data.compare_exchange_strong( val, marked_data_ptr(), memory_model::memory_order_acquire, atomics::memory_order_relaxed )) {
+                    --m_ItemCounter;
+                    retire_data( val.ptr());
+                    m_Stat.onEraseSuccess();
+                    return true;
+                }
+
+                // A concurrent insertion of a neighbour key marks the data pointer temporarily.
+                // The item is still in the list in such case, so try again
+                if ( val.ptr() != iter.data() || val.bits() == 0 )
+                    return false;
+                bkoff();
             }
-            return false;
         }
 
         /// Extracts the item from the list with specified \p key
